@@ -88,3 +88,8 @@ claim("C10",
       "21 entry points (Update v1/v2, StateVector, Snapshot v1/v2, IdSet v1/v2, IdMap, Any binary and JSON, StickyIndex binary and JSON, MessageReader, AwarenessUpdate, merge_updates v1/v2, diff_updates v1/v2 as update and as state vector, encode_state_vector_from_update v1/v2). Inputs: EVERY byte string of length <= 2 (quick) / <= 3 (thorough, 16.8M); for every payload of a corpus of valid payloads of every wire type: every truncation, every single-byte replacement (position x 256 values), every position overwritten by each of 8 extreme var-int encodings, every prefix(A)+suffix(B) splice within a wire type; hand-made structural extremes (nesting 10^5, counts 2^32-1 without data, v2 run-length expansion). Per call: Ok or Err, no panic (overflow checks and debug assertions on), no abort / stack overflow (worker death is attributed to the journalled input), peak heap <= 256 B per input byte + 1 MiB, <= 2 s, strings valid UTF-8, an Ok value encodes again (v1, v2) without panic. One known finding (v2 run-length expansion, identified by input).",
       "memory bound 256 B/byte + 1 MiB is this harness's reading of 'disproportionate'; the re-encoding step runs outside the memory oracle",
       "DESIGN.md 4/C10")
+claim("C18",
+      "explicit-state search over all interleavings of a two-peer y-sync session on real documents (trace-rebuilt states, state-matched on internal dumps and channel contents) + BFS over awareness register states re-materialised on real Awareness instances",
+      "Handshake: two peers (Awareness + DefaultProtocol on real Docs, both client-id orders, gc on/off) over two FIFO byte channels; every prior divergence of <= P edits (quick 1..2, thorough 2..3) with optional full / one-way syncs; then EVERY interleaving of Connect(p) (Protocol::start), Recv(p) (Protocol::handle + replies), Edit(p, op) (<= 1..2, forwarded as Update), AwSet(p). Every payload crossing a channel is decoded with MessageReader, re-encoded and decoded again. At every quiescent state: equal documents, state vectors, awareness registers, nothing pending. Awareness: 2..3 real Awareness instances with a controlled clock; BFS to depth 6..10 over set / clean / time-out / emit (update, update_with_clients) / deliver-any-pooled-update-to-any-peer; per delivery: clock monotone per client, lower clock changes nothing, higher clock wins, own live state never erased, idempotent; per state: every ordered pair of pooled updates commutes on every peer; at the deepest level all permutations of all <= 4-subsets; full exchange settles and all peers agree.",
+      "time-outs only for clients known as live; JSON null as a local state excluded; updates emitted while applying remote messages are not echoed (families without formatting clean-up)",
+      "DESIGN.md 4/C18")
